@@ -86,7 +86,7 @@ def regenerate(prop, bdir, log):
     return ok
 
 
-def lean_check(prop, bdir):
+def lean_check(prop, bdir, tier='quick'):
     """returns dict(obligations, discharged, broken=[...], axioms={...}, log)"""
     res = dict(obligations=0, discharged=0, broken=[], axioms={}, log=[], sources=[])
     pfile = os.path.join(LEAN, 'Properties', prop + '.lean')
@@ -148,6 +148,13 @@ def lean_check(prop, bdir):
                 res['broken'].append(f'{n}: axioms {sorted(ax - ALLOWED_AXIOMS)}')
             else:
                 res['discharged'] += 1
+        if tier == 'thorough':
+            # independent re-check of the compiled property module by leanchecker
+            p = subprocess.run(['lake', 'env', 'leanchecker', f'Properties.{prop}'], cwd=LEAN, capture_output=True, text=True)
+            res['leanchecker'] = 'ok' if p.returncode == 0 else 'FAILED'
+            if p.returncode != 0:
+                res['log'].append((p.stdout + p.stderr)[-3000:])
+                res['broken'].append(f'leanchecker rejected Properties.{prop}')
         return res
     finally:
         fcntl.flock(lock, fcntl.LOCK_UN)
@@ -188,7 +195,7 @@ def main():
         print('[replay] violation reproduced' if p.returncode != 0 else '[replay] no longer fails')
         sys.exit(1 if p.returncode != 0 else 0)
 
-    lean = dict(obligations=0, discharged=0, broken=[], axioms={}, log=[], sources=[]) if a.no_lean else lean_check(prop, bdir)
+    lean = dict(obligations=0, discharged=0, broken=[], axioms={}, log=[], sources=[]) if a.no_lean else lean_check(prop, bdir, tier)
     t_lean = time.time() - t0
 
     os.makedirs(os.path.join(VERIF, 'replays'), exist_ok=True)
@@ -253,7 +260,7 @@ def main():
         trusted_base=['Lean 4.33 kernel', 'axioms: propext, Classical.choice, Quot.sound (audited this run)',
                       'hand-written executable model tied to /repo by the correspondence run below',
                       'harness/translate.py for Generated/*.lean'],
-        theorems=lean['axioms'], broken=lean['broken'], lean_modules=lean['sources'],
+        theorems=lean['axioms'], broken=lean['broken'], leanchecker=lean.get('leanchecker', 'not run (thorough tier only)'), lean_modules=lean['sources'],
         evaluations=res['evaluations'] if res else 0,
         distinct_nontrivial=res['distinct_nontrivial'] if res else 0,
         rule=res['rule'] if res else '', samples=res['samples'] if res else [],
